@@ -550,6 +550,8 @@ def run(rep: vlib.Reporter, tier: str, seed: int) -> None:
     rep.add("exhaustive", True)
     for c in (vc[40], ec[100], ec[-1], cc[17]):
         rep.sample(c)
+    from harness import srctie      # source-text tie (Props/SrcTie.v): the literal type sets read from the source text = the tables
+    found_input = (not srctie.check(rep)) or found_input
 
     # broken proof: look for a concrete failing input
     if not pr.ok:
@@ -573,6 +575,10 @@ def run(rep: vlib.Reporter, tier: str, seed: int) -> None:
 
 def replay(path: str) -> int:
     r = json.load(open(path))["replay"]
+    if r.get("kind") == "srctie":
+        from harness import srctie
+        srctie.replay(r)
+        return 0
     if r.get("kind") == "e2e":
         obs = e2e_one(r["fw"], r["declared"], r["atype"], r["mode"], r["mix"])
         print("replay e2e:", {k: r[k] for k in ("fw", "declared", "atype", "mode", "mix")}, "->", obs, "(recorded:", r.get("obs"), ")")
